@@ -7,5 +7,5 @@ WT=/tmp/scratch/mut-$$
 git -C /repo worktree add -q --detach "$WT" HEAD || exit 2
 ( cd "$WT" && git apply "$PATCH" ) || { echo "PATCH DOES NOT APPLY"; git -C /repo worktree remove --force "$WT"; exit 2; }
 ( cd "$WT" && /venv/bin/python -c "import asimap.mbox, asimap.client, asimap.parse, asimap.search, asimap.fetch, asimap.user_server" ) || echo "IMPORT FAILS"
-VERIF_REPO="$WT" timeout 900 /verif/check "$ID" "$@" 2>&1 | grep -E "VIOLATION|clause=|quick seed|thorough seed|HARNESS" | cut -c1-220 | head -12
+VERIF_REPO="$WT" timeout 3000 /verif/check "$ID" "$@" 2>&1 | grep -E "VIOLATION|clause=|quick seed|thorough seed|HARNESS" | cut -c1-220 | head -12
 git -C /repo worktree remove --force "$WT"
